@@ -2,7 +2,7 @@
 events."""
 import re
 
-from vlib import learn, pumlsem as ps, pvcase
+from vlib import gen, learn, pumlsem as ps, pvcase
 from vlib.runner import Violation
 
 ID = "C05"
@@ -119,6 +119,18 @@ def run_shard(ctx):
             run_case(dict(case, k=2) if ID == "C02" else case, ctx)
         except Violation as v:
             ctx.violation(case, f"[fork shape {tag}] " + str(v))
+            return
+    # loops ending in a fork inside nested forks (24 definitions)
+    for i, (tag, ast) in enumerate(gen.deep_loop_fork_shapes()):
+        if i % ctx.nshards != ctx.shard:
+            continue
+        case = {"defn": ps.to_json(ast), "k": 2, "pick": None,
+                "sched": ctx.seed * 1000 + i}
+        ctx.count("deep_loop_fork_shapes_enumerated")
+        try:
+            run_case(case, ctx)
+        except Violation as v:
+            ctx.violation(case, f"[deep shape {tag}] " + str(v))
             return
     # richer break decisions (forks / loops inside the break branch)
     for tag, case in pvcase.break_branch_cases(ctx.seed, ctx.shard,
